@@ -107,6 +107,10 @@ static int run_fwd()
     // trackers over a leaf whose composable functions fail: the tracker must stay silent
     tracked_allocator<log_tracker, log_leaf> c14(log_tracker{}, log_leaf(0, true));
     aligned_allocator<tracked_allocator<log_tracker, log_leaf>> c15(32, tracked_allocator<log_tracker, log_leaf>(log_tracker{}, log_leaf(0, true)));
+    // wrappers that were move-assigned / move-constructed before use: their parameters travel with them
+    aligned_allocator<log_leaf> c16(8, log_leaf(1)); c16 = aligned_allocator<log_leaf>(64, log_leaf(0));
+    aligned_allocator<log_leaf> t17(128, log_leaf(0)); aligned_allocator<log_leaf> c17(std::move(t17));
+    tracked_allocator<log_tracker, log_leaf> c18(log_tracker{}, log_leaf(1)); c18 = tracked_allocator<log_tracker, log_leaf>(log_tracker{}, log_leaf(0));
     std::string line;
     while (std::getline(std::cin, line))
     {
@@ -129,6 +133,10 @@ static int run_fwd()
             { auto p = allocate_unique<Obj<24>[]>(l0, a ? a : 1); }
             { unique_base_ptr<Base, log_leaf> q(allocate_unique<BigDerived>(l0)); }
             { auto sp = allocate_shared<Obj<40>>(l0); }
+            // a constructor that throws although the type's default constructor cannot: the node is released all the same
+            { struct Picky { char c[24]; Picky() noexcept {} explicit Picky(int) { throw 7; } };
+              try { auto p = allocate_unique<Picky>(l0, 1); } catch (int) {}
+              try { auto p = allocate_unique<Picky>(any_allocator{}, l0, 1); } catch (int) {} }
         }
         else
             switch (comp)
@@ -137,6 +145,7 @@ static int run_fwd()
             case 4: raw_op(c4, op, cnt, size, al); break; case 5: raw_op(c5, op, cnt, size, al); break; case 6: raw_op(c6, op, cnt, size, al); break;
             case 7: raw_op(c7, op, cnt, size, al); break; case 8: raw_op(c8, op, cnt, size, al); break; case 9: raw_op(c9, op, cnt, size, al); break;
             case 10: raw_op(c10, op, cnt, size, al); break; case 11: raw_op(c11, op, cnt, size, al); break; case 12: raw_op<false>(c12, op, cnt, size, al); break; case 13: raw_op(c13, op, cnt, size, al); break; case 14: raw_op(c14, op, cnt, size, al); break; case 15: raw_op(c15, op, cnt, size, al); break;
+            case 16: raw_op(c16, op, cnt, size, al); break; case 17: raw_op(c17, op, cnt, size, al); break; case 18: raw_op(c18, op, cnt, size, al); break;
             }
         std::printf("%s =%s\n", line.c_str(), g_log.c_str());
     }
